@@ -45,6 +45,9 @@ structure Skel (R D : Type) where
 structure Roles (R D : Type) where
   acct  : String → Option R
   denom : String → Option D
+  /-- match on the ABSTRACT party / denomination texts (`srcA`, `dstA`, `denomA`: argument lists of calls nested deeper than
+  one level elided) instead of the full ones — for modules whose parties are looked up through long chains -/
+  abstract : Bool := false
 
 abbrev Val := String → Option Bool
 
@@ -73,9 +76,9 @@ def skelOf {R D : Type} (r : Roles R D) (val : Val) (it : Item) : Option (Skel R
   match bkindOf it.op with
   | none => none
   | some k =>
-    let src : Option (Option R) := if k == .mint then some none else (r.acct it.src).map some
-    let dst : Option (Option R) := if k == .burn then some none else (r.acct it.dst).map some
-    match src, dst, r.denom it.denom with
+    let src : Option (Option R) := if k == .mint then some none else (r.acct (if r.abstract then it.srcA else it.src)).map some
+    let dst : Option (Option R) := if k == .burn then some none else (r.acct (if r.abstract then it.dstA else it.dst)).map some
+    match src, dst, r.denom (if r.abstract then it.denomA else it.denom) with
     | some s, some d, some dn => some ⟨k, s, d, dn, isPos val it⟩
     | _, _, _ => none
 
